@@ -236,7 +236,7 @@ PROPERTY = dict(
                 verdicts='barcode / sequencing-index / base-demultiplexer-index verdicts symbolic per pair', modes='paired and single end, rejects on/off, one-file-per-cell output incl. stale files of an earlier run, 3 header styles, maxReadPairs None/1..3',
                 strategies='each of the %d registered strategies' % len(NAMES)),
     outside=['gzip itself', 'library auto-detection (detectLibYields)', 'cluster submission branch of demux.py', 'headers longer than 255 characters (C04-L3)',
-             'several strategies selected at once', 'maxReadPairs = 0', 'symbolic read content (pools are used; C02 covers symbolic sequences per strategy)'],
+             'several strategies selected at once', 'maxReadPairs = 0', 'symbolic read content (pools are used; C02 covers symbolic sequences per strategy)', 'headers that are neither Illumina, short (7-field) nor already demultiplexed (the loader aborts)'],
     assumptions=['barcode parser replaced by a stub whose verdict per pair is symbolic (C03 owns the real parser)',
                  'for fixed-layout strategies the predicted sink is: demultiplexed iff mate count allowed and barcode + index verdicts accept'],
     trusted=['stubs/memfs.py', 'stubs/stubparser.py', 'spec/c01.py', 'spec/layouts.py (allowed mate counts)'],
